@@ -3,10 +3,13 @@
    Frame.Limit), badger as an ordered map with expiry; tied to the real in-memory and on-disk
    providers by the c06 harness, which also compares every answer with the exhaustive filter
    (Check/C06.v spec_query) on every run.
-   Proved here (for EVERY store content, query, limit, continuation id): soundness of the answer.
-   The converse (nothing that matches is skipped by the seek-and-stop iteration) is PARTIAL: it is
-   checked by the harness against the exhaustive filter, not yet proved. *)
-From Emitter Require Import Lib.Base Model.MsgCodec Model.Store Proofs.StoreProofs.
+   Proved here (for EVERY store content, query, limit, continuation id): soundness of the answer;
+   and, for queries without a continuation id whose contract and first channel level are literal
+   (the seek key needs them), EXACTNESS: the seek-and-stop iteration returns precisely the live
+   entries that pass ID.Match, in key order, cut only by the limit and the reply-size cap - nothing
+   that matches is skipped.  For continuation queries the converse is checked by the harness
+   against the exhaustive filter on every run. *)
+From Emitter Require Import Lib.Base Model.MsgCodec Model.Store Proofs.IdProofs Proofs.LexOrder Proofs.StoreProofs Proofs.StoreComplete.
 
 (* every message of an answer is a live (not expired) entry of the store whose id passes
    ID.Match for the queried ssid and window - hence never a message of another contract, never an
@@ -50,3 +53,21 @@ Theorem C06_answer_order : forall l n,
   /\ (len l <= n -> len (frame_limit l n) = len l).
 Proof. exact frame_limit_spec. Qed.
 Print Assumptions C06_answer_order.
+
+(* the converse: nothing is skipped.  [cap] walks the filtered list and stops at the limit or when
+   the reply would exceed the size cap, exactly like the scan does on the entries it accepts. *)
+Theorem C06_lookup_exact : forall s now q0 q1 qr from until limit,
+  esorted s -> Forall (fun e => wf_id (key e)) s ->
+  word_ok q0 -> word_ok q1 -> literal q0 -> literal q1 -> time_ok until ->
+  lookup s now (q0 :: q1 :: qr) from until [] limit
+  = cap (map e_msg (filter (fun e => id_match (key e) (q0 :: q1 :: qr) from until) (filter (visible now) s))) limit [] 0.
+Proof. exact lookup_exact. Qed.
+Print Assumptions C06_lookup_exact.
+
+(* its premise about the store is an invariant of storing: keys stay sorted (and ids come from
+   NewID - C19) *)
+Theorem C06_store_stays_sorted : forall retain s m, esorted s -> esorted (store_msg retain s m).
+Proof.
+  intros retain s m S. unfold store_msg. destruct (id_time (m_id m)); [apply store_put_sorted; exact S | exact S | exact S].
+Qed.
+Print Assumptions C06_store_stays_sorted.
